@@ -290,6 +290,20 @@ class YPPrologCompiler:
             if isinstance(body.lhs,IfThenPredicate):
                 self._debug("------ case: A -> T ; B  => breakableBlock( ... )")
                 cut_if_label = self.get_cut_if_label()
+                if self.has_local_cut(body.lhs.condition):
+                    # a cut inside the condition is local to the condition: it leaves
+                    # a block of its own around (A, $CUTIF, T), after which B is tried
+                    local_label = self.get_cut_if_label()
+                    code = [ YPCodeBreakableBlock(local_label, self.compile_body(
+                        ConjunctionPredicate(
+                            self.localize_cuts(body.lhs.condition,local_label),
+                            ConjunctionPredicate(
+                                CutIfMarker(cut_if_label),
+                                body.lhs.action
+                            )
+                        )
+                    )) ] + self.compile_body(body.rhs)
+                    return [ YPCodeBreakableBlock(cut_if_label,code) ]
                 code = self.compile_body(
                     DisjunctionPredicate(
                         ConjunctionPredicate(
@@ -339,6 +353,30 @@ class YPPrologCompiler:
             # else => [ yieldtrue, yieldbreak ]
             return [ YPCodeYieldTrue(), YPCodeYieldBreak() ]
         self._debug("------ case: unknown!!", body)
+
+    def has_local_cut(self,body):
+        """does the condition contain a cut that belongs to the condition itself
+        (not to a nested condition or negation)?"""
+        if isinstance(body,CutPredicate):
+            return True
+        if isinstance(body,(ConjunctionPredicate,DisjunctionPredicate)):
+            return self.has_local_cut(body.lhs) or self.has_local_cut(body.rhs)
+        if isinstance(body,IfThenPredicate):
+            return self.has_local_cut(body.action)
+        return False
+
+    def localize_cuts(self,body,label):
+        """replace the cuts that belong to the condition by the marker that leaves the
+        block with the given label"""
+        if isinstance(body,CutPredicate):
+            return CutIfMarker(label)
+        if isinstance(body,ConjunctionPredicate):
+            return ConjunctionPredicate(self.localize_cuts(body.lhs,label),self.localize_cuts(body.rhs,label))
+        if isinstance(body,DisjunctionPredicate):
+            return DisjunctionPredicate(self.localize_cuts(body.lhs,label),self.localize_cuts(body.rhs,label))
+        if isinstance(body,IfThenPredicate):
+            return IfThenPredicate(body.condition,self.localize_cuts(body.action,label))
+        return body
 
     def compile_predicate(self,pred,code):
         args = [ self.compile_expression(a) for a in pred.functor.args ]
